@@ -92,7 +92,7 @@ func (m *c12Model) stream(n int) string {
 	return sb.String()
 }
 
-var c12Kinds = []string{"ans0", "ans1", "ans2", "ans3", "det1", "throw0", "throw1", "throw2", "typeerr1", "inf", "infdet"}
+var c12Kinds = []string{"ans0", "ans1", "ans2", "ans3", "det1", "throw0", "throw1", "throw2", "typeerr1", "inf", "infdet", "cut1", "cutalt"}
 
 // symbols: Solutions A works with atoms, B with integers, so that bytes on the shared user_output can be
 // attributed to the query that wrote them.
@@ -141,6 +141,14 @@ func c12Query(kind string, slot int) (string, *c12Model) {
 		}
 		m.Steps = append(m.Steps, c12Step{Kind: 'x'})
 		return fmt.Sprintf("member(X, [%s]), write(X).", strings.Join(elems[:n], ", ")), m
+	case kind == "cut1" || kind == "cutalt":
+		// queries made of cuts only: their single answer carries the EMPTY environment (a nil *engine.Env), which
+		// must still count as an answer; there is no variable X, so Scan reports it as absent
+		m.Steps = []c12Step{{Kind: 'a', Val: "absent"}, {Kind: 'x'}}
+		if kind == "cut1" {
+			return "!.", m
+		}
+		return "(! ; true).", m
 	case kind == "det1":
 		m.Steps = []c12Step{ans(elems[0]), {Kind: 'x'}}
 		return fmt.Sprintf("X = %s, write(X).", elems[0]), m
